@@ -6,6 +6,9 @@ spec/MGCycleGen.tla   (G) histories with predicted call logs and corrections -> 
                       (the REAL MultiGridHierarchy/MultiGrid over mock Z_p algebra, exact comparison)
 spec/MGCycleRate.tla  (V) runs of the real MultiGrid on a LAFEM Q1 Poisson hierarchy (harness/c09_mgreal.cpp):
                       expression-log grammar, documented call sequence, rate(L) < 1/2, rate(L) <= rate(2) + 0.15
+spec/MGCycleXfer.tla  (V) the same hierarchy converted to other data/index types (LAFEM::Transfer::convert) and wrapped in
+                      Global::Matrix/Vector/Filter/Transfer (with/without coarse muxer) - harness/c09_mgxfer.cpp: same
+                      correction as the plain LAFEM hierarchy, documented call sequence, transfer operations agree
 """
 import os, json, re, threading
 import concurrent.futures as cf
@@ -156,6 +159,8 @@ def validate_real(chk, binary):
         if st:
             m = re.search(r"k = (\d+)", st[-1])
             kk = int(m.group(1)) if m else None
+        if kk is None and "initial state" in r.violation:
+            kk = 1
         x = runs[kk - 1] if kk and kk <= len(runs) else {}
         chk.violation({"kind": "real", "what": inv[0] if inv else "trace", "cycle": CYC[x.get("cyc", 0)] if x else "?",
                        "adapt": ADAPT[x.get("adapt", 0)] if x else "?", "lmax": x.get("lmax")},
@@ -172,6 +177,61 @@ def validate_real(chk, binary):
     chk.extra["rate_margin_to_half"] = None if worst is None else round(0.5 - worst, 3)
 
 
+def xfer_cases(tier):
+    runs = [{"cyc": c, "adapt": 0, "peak": True} for c in (0, 1, 2)] + [{"cyc": 1, "adapt": 0, "peak": False}, {"cyc": 0, "adapt": 1, "peak": True},
+                                                                          {"cyc": 2, "adapt": 2, "peak": False}]
+    if tier == "quick":
+        return [{"lmax": l, "lmin": 1, "steps": 2, "seed": vlib.seed(), "runs": runs} for l in (2, 3, 4, 5)]
+    runs = [{"cyc": c, "adapt": a, "peak": p} for c in (0, 1, 2) for a in (0, 1, 2) for p in (True, False)]
+    return [{"lmax": l, "lmin": 1, "steps": s, "seed": vlib.seed() + s, "runs": runs} for s in (1, 2) for l in (2, 3, 4, 5, 6, 7)]
+
+
+def validate_xfer(chk, binary):
+    """converted LAFEM hierarchies and Global:: hierarchies vs the plain LAFEM hierarchy, judged by spec/MGCycleXfer.tla"""
+    cases = xfer_cases(chk.tier)
+    res = vlib.run_cases(binary, cases, tmo=300)
+    runs = []
+    for c, r in zip(cases, res):
+        if r.get("ok") is not True:
+            chk.violation({"kind": "xfer", "what": "run", "lmax": c["lmax"], "outcome": r.get("outcome", "mismatch")},
+                          r.get("why") or ("outcome %s: %s" % (r.get("outcome"), (r.get("stderr") or "")[-400:])),
+                          {"kind": "case", "harness": "c09_mgxfer", "case": c, "result": r})
+            continue
+        runs += r["runs"]
+    if not runs:
+        return
+    gdir = os.path.join(vlib.BUILD, "gen", "C09")
+    os.makedirs(gdir, exist_ok=True)
+    path = os.path.join(gdir, "xfer_trace_%d.ndjson" % os.getpid())
+    with open(path, "w") as f:
+        for x in runs:
+            f.write(json.dumps(x) + "\n")
+    r = vlib.tlc("MGCycleXfer", "MGCycleXfer.cfg", env={"TRACE": path}, timeout=600, want_printed=False)
+    chk.add_tlc(r, "transfer variant trace validation")
+    chk.traces += len(runs)
+    if r.violation:
+        inv = re.findall(r"Invariant (\w+) is violated", r.violation)
+        st = vlib.tlc_trace_states(r.out)
+        kk = None
+        if st:
+            m = re.search(r"k = (\d+)", st[-1])
+            kk = int(m.group(1)) if m else None
+        if kk is None and "initial state" in r.violation:
+            kk = 1
+        x = runs[kk - 1] if kk and kk <= len(runs) else {}
+        chk.violation({"kind": "xfer", "what": inv[0] if inv else "trace", "variant": x.get("variant"), "cycle": CYC[x.get("cyc", 0)] if x else "?",
+                       "adapt": ADAPT[x.get("adapt", 0)] if x else "?", "lmax": x.get("lmax")},
+                      "run %s rejected by spec/MGCycleXfer.tla: %s; run = %s" % (kk, r.violation, json.dumps({k: v for k, v in x.items() if k not in ("calls", "ref_calls")})[:500]),
+                      {"kind": "tlc", "cmd": r.cmd, "trace_file": path, "run": x})
+    else:
+        os.remove(path)
+    dev = {}
+    for x in runs:
+        dev[x["variant"]] = max(dev.get(x["variant"], 0), x["dev"])
+    chk.extra["transfer_variant_max_deviation_in_eps"] = dev
+    chk.extra["transfer_variant_runs"] = len(runs)
+
+
 def run(chk):
     tier = chk.tier
     bins = {}
@@ -179,7 +239,7 @@ def run(chk):
 
     def do_build():
         try:
-            bins["mock"], bins["real"] = vlib.build(["c09_mgmock", "c09_mgreal"], jobs=4)
+            bins["mock"], bins["real"], bins["xfer"] = vlib.build(["c09_mgmock", "c09_mgreal", "c09_mgxfer"], jobs=4)
         except Exception as e:  # reported below, in the main thread
             err.append(e)
     bt = threading.Thread(target=do_build)
@@ -217,6 +277,7 @@ def run(chk):
 
     # (V) real LAFEM hierarchy
     validate_real(chk, bins["real"])
+    validate_xfer(chk, bins["xfer"])
 
     chk.exhaustive = True
     chk.rule = ("(M) every cycle x sub-range top..crs of %d levels x left-over _counters contents; (G) every history of spec/MGCycleGen.tla "
@@ -224,7 +285,8 @@ def run(chk):
                 "level complementary, first application = any cycle x sub-range x adaptive mode (W up to L=%d), then again / set_cycle / set_levels / "
                 "set_adapt_cgc / all; each replayed on the real MultiGrid over Z_32003 mocks with poisoned level vectors, call log and correction compared "
                 "exactly; non-trivial = at least one application with L >= 1; distinct = distinct (seed, hierarchy, application configurations); "
-                "(V) every recorded run of the LAFEM hierarchy validated by TLC against spec/MGCycleRate.tla" % (7 if tier == "quick" else 9, 6))
+                "(V) every recorded run of the LAFEM hierarchy validated by TLC against spec/MGCycleRate.tla, every (variant, run) of the converted / "
+                "Global:: hierarchies against spec/MGCycleXfer.tla" % (7 if tier == "quick" else 9, 6))
     for c in cases[len(cases) // 3: len(cases) // 3 + 2]:
         chk.sample({"N": c["N"], "pre/post/peak/cs": [c["pre"], c["post"], c["peak"], c["cs"]], "k": c["k"],
                     "apps": [{"how": a["how"], "cycle": CYC[a["cyc"]], "top": a["top"], "crs": a["crs"], "adapt": ADAPT[a["adapt"]],
@@ -237,25 +299,31 @@ def run(chk):
         "filtered (first application) or arbitrary (second application)",
         "level data over Z_32003 is generic (hash-generated), not SPD: the exact part checks the algebraic identity of the map, positivity "
         "plays no role in it; configurations whose adaptive denominator is 0 mod p are skipped (counted)",
+        "Global:: layer on ONE process (null gates; coarse muxer absent or with this process as child and parent over a size-1 sibling "
+        "communicator): ghost muxers / rest_send / prol_recv of genuinely distributed hierarchies are not explored",
         "floating part: Q1 Poisson on the unit square, Jacobi(0.8) smoothing, mesh levels 2..%d; rate abstraction = max per-cycle residual "
         "ratio in permille (floor); the rate bounds are stated for fixed / min-energy coarse grid correction only" % (6 if tier == "quick" else 7),
     ]
 
 
 def replay(obj):
-    mock, real = vlib.build(["c09_mgmock", "c09_mgreal"], jobs=4)
+    mock, real, xfer = vlib.build(["c09_mgmock", "c09_mgreal", "c09_mgxfer"], jobs=4)
     bad = 0
     redo_real = False
+    redo_xfer = False
     for v in obj["violations"]:
         rp = v.get("replay") or {}
         if rp.get("kind") == "tlc" and (v.get("sig") or {}).get("kind") == "real":
             redo_real = True      # a recorded run was rejected by MGCycleRate.tla: record and validate the runs again (below)
             continue
+        if rp.get("kind") == "tlc" and (v.get("sig") or {}).get("kind") == "xfer":
+            redo_xfer = True
+            continue
         if rp.get("kind") != "case":
             print(json.dumps({"sig": v["sig"], "desc": v["desc"][:400]}))
             bad += 1
             continue
-        b = mock if rp.get("harness") == "c09_mgmock" else real
+        b = {"c09_mgmock": mock, "c09_mgxfer": xfer}.get(rp.get("harness"), real)
         r = vlib.run_cases(b, [rp["case"]], tmo=300, shards=1)[0]
         print(json.dumps({"sig": v["sig"], "result": r})[:1200])
         if r.get("ok") is not True:
@@ -266,5 +334,11 @@ def replay(obj):
         for s_, d, _ in chk.violations:
             print(json.dumps({"sig": s_, "desc": d[:600]}))
         print(json.dumps({"rates_by_mesh_level": chk.extra.get("rates_by_mesh_level")}))
+        bad += len(chk.violations)
+    if redo_xfer:
+        chk = vlib.Check("C09", tier=os.environ.get("VERIF_TIER", "quick"))
+        validate_xfer(chk, xfer)
+        for s_, d, _ in chk.violations:
+            print(json.dumps({"sig": s_, "desc": d[:600]}))
         bad += len(chk.violations)
     return 1 if bad else 0
